@@ -204,9 +204,25 @@ class C03(Property):
         d = make_droplet(cls_name, spec["droplet"])
         vmin, vmax = spec["vmin"], spec["vmax"]
         scale = max(abs(vmin), abs(vmax), abs(vmax - vmin))
+        fam = spec["family"]
+        if fam == "cart":
+            # a preceding render of the same droplet on a sibling grid (same shape, but other periodicity, spacing or origin) must
+            # leave no trace: anything remembered between calls has to be keyed by everything the result depends on
+            g0 = spec["grid"]
+            pick = (len(spec["droplet"]["position"]) + int(sum(g0["shape"]))) % 3
+            sib = dict(g0)
+            if pick == 0:
+                sib["periodic"] = [not p for p in g0["periodic"]]
+            elif pick == 1:
+                sib["spacing"] = [2.0 * x for x in g0["spacing"]]
+            else:
+                sib["origin"] = [o + 0.5 * n * x for o, n, x in zip(g0["origin"], g0["shape"], g0["spacing"])]
+            try:
+                d.copy().get_phase_field(gen.build_cart(sib)[1], vmin=vmin, vmax=vmax)
+            except Exception:  # noqa: BLE001 - the sibling render is not judged
+                pass
         field = d.get_phase_field(grid, vmin=vmin, vmax=vmax)
         data = np.asarray(field.data, float)
-        fam = spec["family"]
         ctx.cls(cls_name, fam, "width:" + ("None" if spec["droplet"].get("interface_width", "sharp") is None else ("0" if spec["droplet"].get("interface_width", 0.0) == 0 else "positive")))
         if not ctx.require(data.shape == tuple(grid.shape), "shape", f"field shape {data.shape} on grid {grid.shape}"):
             return
